@@ -46,11 +46,8 @@ struct Snap {
    }
 };
 
-// Server-chosen index-child names "I<k>" come from a per-DataNode counter that DataNode::Init()/Reset() do not reset, and DataNodes are pooled:
-// the names a fresh node hands out would depend on what the recycled object did in an earlier life.  The harness therefore keeps a reference to
-// every node it has ever seen (g_keep), so no node object is recycled and the counters start at 0 as the specification assumes.
-static std::vector<DataNodeRef> & g_keep = *(new std::vector<DataNodeRef>); static std::set<const DataNode *> & g_kept = *(new std::set<const DataNode *>);   // never destroyed (the node pool dies first at exit)
-static void KeepAll(DataNode & n) {for (DataNodeRefIterator it = n.GetChildIterator(); it.HasData(); it++) {if (g_kept.insert(it.GetValue()()).second) g_keep.push_back(it.GetValue()); KeepAll(*it.GetValue()());}}
+// (server-chosen index-child names "I<k>" come from a per-node counter that starts at 0 for every new node - since the repair of F40 also for a
+// recycled one -, exactly as the specification's `ctr`; no renaming is needed)
 struct Ranker {
    void Build(const std::map<std::string, uint32> &) {}
    const Snap & Apply(const Snap & s) const {return s;}
@@ -100,7 +97,7 @@ struct IsoWorld {
    Snap Observe()
    {
       Snap sn; Client * any = NULL; for (size_t i=0; i<w.cs.size(); i++) if (w.Attached(w.cs[i])) {any = w.cs[i]; break;}
-      if (any) {KeepAll(any->sess->Root()); Walk(any->sess->Root(), sn);}
+      if (any) Walk(any->sess->Root(), sn);
       for (int i=0; i<3; i++) { Client * c = s[i];
          if (!w.Attached(c)) continue;
          sn.conn.insert(c->name);
@@ -516,8 +513,8 @@ static int IsoRandom(int argc, char ** argv)
    RepJ(s); return 0;
 }
 
-// directed case of known finding F40: DataNode::Init()/Reset() do not reset _orderedCounter, and DataNodes are pooled, so the server-chosen
-// child names of a NEW node continue where a departed session's node of an earlier life stopped (no references are kept here)
+// directed case of finding F40 (repaired): DataNodes are pooled; a NEW node must name its first server-chosen child I0 whatever the recycled
+// object handed out in an earlier life (e.g. as a node of a session that has departed) - otherwise the departed session has left a trace
 static int CtrLeakDirected(int argc, char ** argv)
 {
    if (argc < 3) return 2; if (!OpenReport(argv[2])) return 3;
@@ -532,6 +529,6 @@ static int CtrLeakDirected(int argc, char ** argv)
    if (sn) for (DataNodeRefIterator it = sn->GetChildIterator(); it.HasData(); it++) for (DataNodeRefIterator jt = it.GetValue()()->GetChildIterator(); jt.HasData(); jt++) {kids++; const std::string nm = jt.GetValue()()->GetNodeName()(); names += it.GetValue()()->GetNodeName()(); names += "/" + nm + " "; if (nm != "I0") notI0++;}
    J row = J::Obj(); row.set("case", J::Str("ctrleak")).set("children", J::Int(kids)).set("not_I0", J::Int(notI0)).set("names", J::Str(names));
    if (kids != 8) {J v = J::Arr(); v.push(J::Str("directed case F40: the ordered inserts did not create 8 children")); row.set("drift", v);}
-   else if (notI0) {J v = J::Arr(); char t[400]; snprintf(t, sizeof(t), "%d of 8 brand-new nodes of s2 named their FIRST server-chosen child other than I0 after s1 (whose nodes had handed out I0..I2) departed: %s", notI0, names.c_str()); v.push(J::Str(t)); row.set("known", v);}
+   else if (notI0) {J v = J::Arr(); char t[400]; snprintf(t, sizeof(t), "%d of 8 brand-new nodes of s2 named their FIRST server-chosen child other than I0 after s1 (whose nodes had handed out I0..I2) departed: %s", notI0, names.c_str()); v.push(J::Str(t)); row.set("violations", v);}
    RepJ(row); J s2 = J::Obj(); s2.set("summary", J::Bool(true)).set("cases", J::Int(1)); RepJ(s2); return 0;
 }
